@@ -7,6 +7,7 @@ import (
 	"fmt"
 	"os"
 	"path/filepath"
+	"sort"
 	"strings"
 	"sync"
 	"sync/atomic"
@@ -25,7 +26,9 @@ import (
 const prop = "C17"
 
 const period = 50 * time.Millisecond // heart-beat period of the lock (fixed in the library)
-const margin = 10 * time.Millisecond // clock / mtime granularity allowance
+// allowance for what happens between the instant the observer's probe is served and the instant it evaluates the
+// age of what it read (its own goroutine may be held up under load), plus clock / mtime granularity
+const margin = 30 * time.Millisecond
 
 func TestMain(m *testing.M) { ev.Main(m) }
 
@@ -35,26 +38,38 @@ type Observer struct {
 }
 
 type Case struct {
-	Backend   string     `json:"backend"`
-	Acquire   string     `json:"acquire"`      // trylock | lock | lockwithtimeout
-	Periods   int        `json:"hold_periods"` // how long the holder holds
-	Observers []Observer `json:"observers"`
-	Load      int        `json:"load"`      // 0 none, 1 light, 2 heavy (I/O writers in the same tree + busy goroutines)
-	DieAtOp   int        `json:"die_at_op"` // >0: the holder's handle is revoked at its n-th backend operation (acquire sequence: 1..8)
-	DieAfterMs int       `json:"die_after_ms"` // >0: ... or after this delay in steady state
+	Backend    string     `json:"backend"`
+	Acquire    string     `json:"acquire"`      // trylock | lock | lockwithtimeout
+	Periods    int        `json:"hold_periods"` // how long the holder holds
+	Observers  []Observer `json:"observers"`
+	Load       int        `json:"load"`         // 0 none, 1 light, 2 heavy (I/O writers in the same tree + busy goroutines)
+	DieAtOp    int        `json:"die_at_op"`    // >0: the holder's handle is revoked at its n-th backend operation (acquire sequence: 1..8)
+	DieAfterMs int        `json:"die_after_ms"` // >0: ... or after this delay in steady state
+	// SlowWriteMs holds every heart-beat write of the holder up for that long (what a loaded disk does), deterministically
+	SlowWriteMs int `json:"slow_heartbeat_write_ms,omitempty"`
 }
 
 type beat struct{ start, end time.Time }
 
 type world struct {
-	mu       sync.Mutex
-	hbPath   string
-	lockDir  string
-	beats    []beat                 // completed heart-beats of the holder (chtimes returned successfully)
-	dirStamp time.Time              // completion of the holder's stamp of the lock directory (no heart-beat yet)
-	lastStat map[string]time.Time   // per observer: when its latest stat of the heart-beat file (or of the directory) was served
-	removed  map[string][]time.Time // per client: successful removals of the lock directory
-	opens    map[int64]time.Time
+	mu         sync.Mutex
+	hbPath     string
+	lockDir    string
+	beats      []beat                 // completed heart-beats of the holder (chtimes returned successfully)
+	dirStamp   time.Time              // completion of the holder's stamp of the lock directory (no heart-beat yet)
+	lastStat   map[string]time.Time   // per observer: when its latest stat of the heart-beat file (or of the directory) was served
+	removed    map[string][]time.Time // per client: successful removals of the lock directory
+	opens      map[int64]time.Time
+	frozen     map[string]bool
+	lastDetail map[string]string
+	lastProbe  map[string]probe
+}
+
+// probe is what an observer's decisive stat was served with.
+type probe struct {
+	start time.Time // when the stat was issued
+	mod   time.Time // modification time it reported
+	onDir bool
 }
 
 func (w *world) after(op *fsx.Op) {
@@ -66,16 +81,28 @@ func (w *world) after(op *fsx.Op) {
 		// start of a heart-beat write
 		w.opens[op.Seq] = time.Unix(0, op.Start)
 		w.beats = append(w.beats, beat{start: time.Unix(0, op.Start)})
-	case op.Client == "holder" && op.Path == w.hbPath && op.Kind == "chtimes" && op.Err == "":
+	case op.Client == "holder" && op.Path == w.hbPath && (op.Kind == "write" || op.Kind == "writestring") && op.Err == "":
+		// the heart-beat "has been written" when the write of its content returns
 		if n := len(w.beats); n > 0 && w.beats[n-1].end.IsZero() {
 			w.beats[n-1].end = now
 		}
 	case op.Client == "holder" && op.Path == w.lockDir && op.Kind == "chtimes" && op.Err == "":
 		w.dirStamp = now
-	case op.Client != "holder" && (op.Path == w.hbPath || op.Path == w.lockDir) && (op.Kind == "stat" || op.Kind == "lstat"):
-		w.lastStat[op.Client] = now
-	case (op.Kind == "remove" || op.Kind == "removeall") && op.Path == w.lockDir && op.Err == "":
-		w.removed[op.Client] = append(w.removed[op.Client], now)
+	case op.Client != "holder" && op.Path == w.lockDir && op.Kind == "lstat":
+		// the removal of the lock directory (Unlock -> Rm) starts with an lstat of it: what comes after is not a staleness probe
+		w.frozen[op.Client] = true
+	case op.Client != "holder" && (op.Path == w.hbPath || op.Path == w.lockDir) && op.Kind == "stat":
+		// the decisive probe of a call is the last one before the call starts removing anything
+		if !w.frozen[op.Client] {
+			w.lastStat[op.Client] = now
+			w.lastProbe[op.Client] = probe{start: time.Unix(0, op.Start), mod: time.Unix(0, op.ModTime), onDir: op.Path == w.lockDir}
+			w.lastDetail[op.Client] = fmt.Sprintf("%s %s served with mtime %v old (%s)", op.Kind, filepath.Base(op.Path), now.Sub(time.Unix(0, op.ModTime)).Round(time.Millisecond), op.Err)
+		}
+	case (op.Kind == "remove" || op.Kind == "removeall") && strings.HasPrefix(op.Path, w.lockDir):
+		w.frozen[op.Client] = true
+		if op.Path == w.lockDir && op.Err == "" {
+			w.removed[op.Client] = append(w.removed[op.Client], now)
+		}
 	}
 }
 
@@ -93,10 +120,12 @@ func (w *world) lastSignOfLife(t time.Time) time.Time {
 }
 
 type verdict struct {
-	by     string
-	what   string
-	at     time.Time // when the observer's decisive stat was served
-	after  time.Time // when the call returned
+	by    string
+	what  string
+	at    time.Time // when the observer's decisive stat was served
+	after time.Time // when the call returned
+	probe probe
+	plain bool // TryLock without override: it judges nothing, it only succeeds when the directory is gone
 }
 
 func startLoad(box *fsbox.Box, level int, stop <-chan struct{}) *sync.WaitGroup {
@@ -104,9 +133,9 @@ func startLoad(box *fsbox.Box, level int, stop <-chan struct{}) *sync.WaitGroup 
 	if level == 0 {
 		return &wg
 	}
-	writers, spinners := 2, 2
+	writers, spinners := 2, 1
 	if level == 2 {
-		writers, spinners = 8, 8
+		writers, spinners = 6, 2
 	}
 	for i := 0; i < writers; i++ {
 		wg.Add(1)
@@ -156,10 +185,18 @@ func checkCase(t ev.T, test string, c Case) {
 	defer box.Close()
 	dir := box.Path("locks")
 	_ = box.Raw.MkdirAll(dir, 0o755)
-	w := &world{lockDir: filepath.Join(dir, filesystem.LockFilePrefix+"-L"), lastStat: map[string]time.Time{}, removed: map[string][]time.Time{}, opens: map[int64]time.Time{}}
+	w := &world{lockDir: filepath.Join(dir, filesystem.LockFilePrefix+"-L"), lastStat: map[string]time.Time{}, removed: map[string][]time.Time{}, opens: map[int64]time.Time{}, frozen: map[string]bool{}, lastDetail: map[string]string{}, lastProbe: map[string]probe{}}
 	w.hbPath = filepath.Join(w.lockDir, "L.lock")
 	box.Backend.KeepOps(false)
 	box.Backend.After = w.after
+	if c.SlowWriteMs > 0 {
+		box.Backend.Before = func(op *fsx.Op) {
+			// (the open is held up rather than the write: opening with O_TRUNC already refreshes the kernel's time stamp)
+			if op.Client == "holder" && op.Path == w.hbPath && op.Kind == "openfile" {
+				time.Sleep(time.Duration(c.SlowWriteMs) * time.Millisecond)
+			}
+		}
+	}
 	hClient, hFS := box.NewClient("holder")
 	var holderOps atomic.Int64
 	var diedAt atomic.Int64
@@ -227,6 +264,9 @@ func checkCase(t ev.T, test string, c Case) {
 				what := ""
 				w.mu.Lock()
 				removedBefore := len(w.removed[name])
+				w.frozen[name] = false
+				delete(w.lastStat, name)
+				delete(w.lastProbe, name)
 				w.mu.Unlock()
 				switch o.Action {
 				case "isstale":
@@ -247,11 +287,13 @@ func checkCase(t ev.T, test string, c Case) {
 					what = "removed the lock directory (" + o.Action + ")"
 				}
 				at := w.lastStat[name]
+				detail := w.lastDetail[name]
+				pr := w.lastProbe[name]
 				w.mu.Unlock()
 				ocancel()
 				if what != "" {
 					vmu.Lock()
-					verdicts = append(verdicts, verdict{by: name, what: what, at: at, after: time.Now()})
+					verdicts = append(verdicts, verdict{by: name, what: what + " [decisive probe: " + detail + "]", at: at, after: time.Now(), probe: pr, plain: o.Action == "trylock"})
 					vmu.Unlock()
 					if strings.HasPrefix(what, "TryLock") {
 						return
@@ -279,10 +321,11 @@ func checkCase(t ev.T, test string, c Case) {
 	vmu.Lock()
 	vs := append([]verdict{}, verdicts...)
 	vmu.Unlock()
+	sort.Slice(vs, func(i, j int) bool { return vs[i].after.Before(vs[j].after) })
+	type finding struct{ msg string }
+	var findings []finding
+	inconclusive := false
 	for _, v := range vs {
-		if v.at.IsZero() {
-			v.at = v.after
-		}
 		if d := diedAt.Load(); d != 0 && !v.after.Before(time.Unix(0, d)) {
 			ev.Class("stale-verdict-on-dead-holder(expected)")
 			continue
@@ -290,15 +333,32 @@ func checkCase(t ev.T, test string, c Case) {
 		if r := releasing.Load(); r != 0 && !v.after.Before(time.Unix(0, r)) {
 			continue
 		}
-		c0 := w.lastSignOfLife(v.at)
-		age := v.at.Sub(c0)
-		if age > 2*period-margin {
-			ev.Class("stale-verdict-after-heart-beat-starvation(not judged)")
-			ev.Inconclusive("the holder's heart-beat was held up for more than two periods")
+		if v.plain {
+			continue // consequence of somebody else's removal
+		}
+		if v.probe.start.IsZero() {
+			inconclusive = true
 			continue
 		}
-		ev.Fail(t, prop, test, c, "%s: %s while the holder is alive, has not begun to release, and completed a heart-beat only %v before (two periods = %v); heart-beats so far: %s",
-			v.by, v.what, age.Round(time.Millisecond), 2*period, w.describeBeats(acquired))
+		// newest sign of life completed before the probe was even issued
+		c0 := w.lastSignOfLife(v.probe.start)
+		switch {
+		case !v.probe.onDir && c0.Sub(v.probe.mod) > margin:
+			findings = append(findings, finding{fmt.Sprintf("%s: %s: the heart-beat file carried a stamp %v older than a heart-beat that had already been written when the probe was issued", v.by, v.what, c0.Sub(v.probe.mod).Round(time.Millisecond))})
+		case v.probe.start.Sub(v.probe.mod) > 2*period-margin:
+			ev.Class("stale-verdict-after-heart-beat-starvation(not judged)")
+			inconclusive = true
+		case v.after.Sub(v.probe.mod) <= 2*period-margin:
+			findings = append(findings, finding{fmt.Sprintf("%s: %s although what it read was only %v old when the call returned (two periods = %v)", v.by, v.what, v.after.Sub(v.probe.mod).Round(time.Millisecond), 2*period)})
+		default:
+			ev.Class("stale-verdict-observer-held-up-between-probe-and-evaluation(not judged)")
+			inconclusive = true
+		}
+	}
+	if inconclusive {
+		ev.Inconclusive("heart-beat or observer held up for more than a period (machine load)")
+	} else if len(findings) > 0 {
+		ev.Fail(t, prop, test, c, "%s; the holder is alive and has not begun to release; heart-beats so far: %s", findings[0].msg, w.describeBeats(acquired))
 	}
 	if !dead {
 		uctx, ucancel := context.WithTimeout(context.Background(), 5*time.Second)
@@ -313,6 +373,9 @@ func checkCase(t ev.T, test string, c Case) {
 	close(stopObs)
 	owg.Wait()
 	td := time.Unix(0, diedAt.Load())
+	if now := time.Now(); now.After(td) {
+		td = now // the bound runs from the moment somebody starts polling the dead holder's lock
+	}
 	_, rfs := box.NewClient("recovery")
 	fresh := filesystem.NewGenericRemoteLockFile(rfs.(*filesystem.VFS), "L", dir, false)
 	bound := 2*period + time.Second
@@ -375,7 +438,7 @@ func (w *world) describeBeats(acquired time.Time) string {
 }
 
 func genCase(t *rapid.T) Case {
-	c := Case{Backend: rapid.SampledFrom([]string{"os", "os", "mem"}).Draw(t, "backend"), Acquire: rapid.SampledFrom([]string{"trylock", "lock", "lockwithtimeout"}).Draw(t, "acquire")}
+	c := Case{Backend: "os", Acquire: rapid.SampledFrom([]string{"trylock", "lock", "lockwithtimeout"}).Draw(t, "acquire")}
 	maxP := 20
 	if ev.Thorough() {
 		maxP = 300
@@ -387,6 +450,9 @@ func genCase(t *rapid.T) Case {
 			CadenceMs: rapid.SampledFrom([]int{1, 1, 2, 5, 11, 20}).Draw(t, fmt.Sprintf("cad%d", i))})
 	}
 	c.Load = rapid.SampledFrom([]int{0, 1, 1, 2}).Draw(t, "load")
+	if rapid.IntRange(0, 4).Draw(t, "slow-writes") == 0 {
+		c.SlowWriteMs = rapid.SampledFrom([]int{10, 35, 45}).Draw(t, "slow-write-ms")
+	}
 	switch rapid.IntRange(0, 3).Draw(t, "death") {
 	case 0:
 		c.DieAtOp = rapid.IntRange(1, 8).Draw(t, "die-at-op")
